@@ -153,6 +153,18 @@ def step (cat : Catalog) (toks : List String) : Catalog × String :=
       let spec := if wellTyped cat q then showRes (applyQ cat q) else "?"
       (cat, showRes (applyQ cat (optimize q)) ++ " ## " ++ spec)
     | _ => (cat, "bad-op")
+  | "optsafe" :: rest =>
+    -- the hypotheses of `c05_optimize_sound_partial`, evaluated on this tree and catalog
+    match parseQ (rest.length + 1) rest with
+    | some (q0, []) =>
+      let q := construct q0
+      let hz := hazards cat q
+      let name : Hazard → String := fun h => match h with | .d2 => "D2" | .d3 => "D3" | .d5 => "D5"
+      let out := if !wellTyped cat q then "illtyped"
+        else if OptSafe cat q then "safe"
+        else "unsafe:" ++ ",".intercalate (([Hazard.d2, .d3, .d5].filter (fun h => decide (h ∈ hz))).map name)
+      (cat, out ++ " ## ?")
+    | _ => (cat, "bad-op")
   | "optshape" :: rest =>
     match parseQ (rest.length + 1) rest with
     | some (q0, []) => let q := construct q0; (cat, showQ (optimize q) ++ " ## ?")
